@@ -155,6 +155,46 @@ def py_result(fn_body, names, prims):
     return rec[0] if rec[0] in prims else 'reject'
 
 
+def s4(run):
+    """the in-line parser takes a type string only if it parsed as the single parameter of the single declaration
+    `void __dummy(...)`: everything else is rejected with a cffi error (as the C parser rejects it)"""
+    cp = cffi_mod('cparser')
+    fn = cp.find('Parser.parse_type_and_quals')
+
+    def node(cls, **kw):
+        d = {'__class__': cls}
+        d.update(kw)
+        return d
+
+    def h_isinstance(a, k, e, f):
+        if len(a) == 2 and isinstance(a[1], sp.Opq):
+            return isinstance(a[0], dict) and a[0].get('__class__') == a[1].text.split('.')[-1]
+        return sp.Opq('isinstance(?)')
+    param = node('Typename', type=node('TypeDecl'))
+    good = node('Decl', name='__dummy', type=node('FuncDecl', type=node('TypeDecl'), args=node('ParamList', params=(param,))))
+    typedef = node('Typedef', name='__dotdotdot__')
+    cases = [
+        ('a single type', (typedef, good), True),
+        ('the empty string (no parameter list)', (typedef, node('Decl', name='__dummy', type=node('FuncDecl', type=node('TypeDecl'), args=None))), False),
+        ('two comma-separated types', (typedef, node('Decl', name='__dummy', type=node('FuncDecl', type=node('TypeDecl'), args=node('ParamList', params=(param, param))))), False),
+        ('text that closes the dummy declaration and opens another one', (typedef, good, node('Decl', name='f', type=node('FuncDecl', type=node('TypeDecl'), args=node('ParamList', params=(param,))))), False),
+        ('text that re-declares the dummy', (typedef, good, good), False),
+        ('text that turns the dummy into a function returning a function', (typedef, node('Decl', name='__dummy', type=node('FuncDecl', type=node('FuncDecl'), args=node('ParamList', params=(param,))))), False),
+    ]
+    for label, ext, want_ok in cases:
+        rec = []
+        ev = sp.Evaluator({'isinstance': h_isinstance, 'self._parse': lambda a, k, e, f, ext=ext: ({'ext': ext}, (), 'src'),
+                           'self._get_type_and_quals': lambda a, k, e, f: rec.append(a) or sp.Opq('type')})
+        ps = ev.run(fn, {'cdecl': 'TEXT'})
+        if len(ps) != 1:
+            raise AnalysisError('Parser.parse_type_and_quals: %d paths for %s (conditions over unknowns: %s)' % (len(ps), label, sorted(sp.free_names(ps))))
+        o = ps[0].outcome
+        accepted = o is not None and o[0] == 'return' and len(rec) == 1
+        rejected = o is not None and o[0] == 'raise' and o[1] in ('CDefError', 'FFIError', 'api.CDefError')
+        run.ob('S4/type-string-must-be-a-single-type', 'Parser.parse_type_and_quals', label, accepted if want_ok else rejected, cp.where(fn),
+               'outcome %r' % (o,))
+
+
 def check(run):
     run.technique = ('sibling decision tables: the specifier automaton of the C parser extracted by constant propagation over the CFG of parse_complete '
                      '(per state x token), the Python normalisation walked symbolically per specifier sequence; compared on all 2387 sequences')
@@ -210,5 +250,7 @@ def check(run):
     run.saw('specifier sequences compared', ['%d' % n])
     run.saw('C automaton entries (state x modifier, state x base) evaluated', ['%d + %d' % (len(tables[0]), len(tables[1]))])
     run.assume('pycparser hands the specifiers over in source order in IdentifierType.names (its grammar accepts any sequence of specifiers); '
-               'decided: the specifier tables of the two parsers; NOT decided: declarators, qualifiers, arrays, function types, typedef and tag lookup')
+               'decided: the specifier tables of the two parsers; NOT decided: declarators, qualifiers, arrays, function types, typedef and tag lookup; S4 decides that text which is not one type is rejected by the in-line parser too')
+    s4(run)
     run.min_instances('S3', 60)
+    run.min_instances('S4', 6)
